@@ -17,8 +17,10 @@
 
   The model consumes the regenerated facts `Cosi.Gen.Restart.*` (recover present, re-trigger
   after the backoff wait, backoff construction, ResetRestartBackoff = Reset(), hook reset
-  threshold, watch-error path of Run) and the cenkalti constants of `Cosi.Gen.Queue`; `facts`
-  below pins them, and every theorem that needs one breaks when the source changes it.
+  threshold, watch-error path of Run, capacity of `watchErrors` and shape of the send that reports
+  a failed watch on it) and the cenkalti constants of `Cosi.Gen.Queue`; `facts` and
+  `facts_watch_channel` below pin them, and every theorem that needs one breaks when the source
+  changes it.
 -/
 import Cosi.Model.Restart
 import Cosi.Props.C09
@@ -496,6 +498,28 @@ theorem run_append (f : Nat → Nat → Nat) (s : Sys) (a b : List Ev) :
   | nil => rfl
   | cons e rest ih => exact ih _
 
+/-- the report of a failed watch touches only the pipeline intake, the run status and the channel -/
+theorem reportStep_frame (c : ChanCfg) (s : Sys) (e : Nat) :
+    (reportStep c s e).n = s.n ∧ (reportStep c s e).ctl = s.ctl ∧ (reportStep c s e).input = s.input ∧
+    (reportStep c s e).note = s.note ∧ (reportStep c s e).deliverer = s.deliverer ∧
+    (reportStep c s e).crashed = s.crashed := by
+  unfold reportStep
+  split
+  · exact ⟨rfl, rfl, rfl, rfl, rfl, rfl⟩
+  · split
+    · exact ⟨rfl, rfl, rfl, rfl, rfl, rfl⟩
+    · split <;> exact ⟨rfl, rfl, rfl, rfl, rfl, rfl⟩
+
+theorem reportEndsIntake_true : reportEndsIntake = true := by decide
+
+theorem pipeStop_frame (c : ChanCfg) (s : Sys) :
+    (pipeStop c s).n = s.n ∧ (pipeStop c s).ctl = s.ctl ∧ (pipeStop c s).input = s.input ∧
+    (pipeStop c s).note = s.note ∧ (pipeStop c s).deliverer = false ∧ (pipeStop c s).crashed = s.crashed ∧
+    (pipeStop c s).status = s.status ∧ (pipeStop c s).errq = s.errq ∧
+    (pipeStop c s).intake = (s.intake && s.stuck && c.send != .ctxAware) ∧
+    (pipeStop c s).stuck = (s.intake && s.stuck && c.send != .ctxAware) :=
+  ⟨rfl, rfl, rfl, rfl, rfl, rfl, rfl, rfl, rfl, rfl⟩
+
 theorem setCtl_self (s : Sys) (i : Nat) (c : Ctl) : (s.setCtl i c).ctl i = c := by
   simp [Sys.setCtl]
 
@@ -719,6 +743,7 @@ theorem stepOn_input (f : Nat → Nat → Nat) (s : Sys) (e : Ev) :
     (stepOn f s e).input = lastWrite [e] s.input ∧ (stepOn f s e).n = s.n := by
   cases e with
   | observe i => simp only [stepOn]; split <;> exact ⟨rfl, rfl⟩
+  | watchErr x => exact ⟨(reportStep_frame genCfg s x).2.2.1, (reportStep_frame genCfg s x).1⟩
   | _ => exact ⟨rfl, rfl⟩
 
 theorem step_input (f : Nat → Nat → Nat) (s : Sys) (e : Ev) :
@@ -919,7 +944,7 @@ theorem step_watchErr (f : Nat → Nat → Nat) (s : Sys) (e : Nat) (hs : s.stat
   have h2 : Gen.Restart.dedupStopsOnAbort = true := facts.2.2.2.2.2.2.2.2.2.2.2.2.2.2.1
   have h3 : Gen.Restart.runReturnsWatchErr = true := facts.2.2.2.2.2.2.2.2.2.2.2.2.2.2.2.1
   rw [step_enabled f s _ (by simp [Ev.enabled, hi, hc])]
-  simp [stepOn, hs, hi, h1, h2, h3]
+  simp [stepOn, reportStep, reportEndsIntake, hs, h1, h2, h3]
 
 /-- what a step can do to status, intake and the notification flag once the context is cancelled
     and the intake is dead -/
@@ -939,7 +964,9 @@ theorem cancelled_step (f : Nat → Nat → Nat) (s : Sys) (ev : Ev) (r : Option
       rw [step_enabled f s _ hen]
       simp only [stepOn]
       split <;> exact ⟨hs, hi, id⟩
-    | pipeObserve => rw [step_enabled f s _ hen]; exact ⟨hs, rfl, id⟩
+    | pipeObserve =>
+      rw [step_enabled f s _ hen]
+      exact ⟨hs, by simp [stepOn, (pipeStop_frame genCfg s).2.2.2.2.2.2.2.2.1, hi], id⟩
   · have hf : ev.enabled s = false := by simpa using hen
     rw [step_disabled f s ev hf]; exact ⟨hs, hi, id⟩
 
@@ -1009,16 +1036,23 @@ theorem after_cancel_no_write (f : Nat → Nat → Nat) (s : Sys) (h : s.returne
     rw [i3]; simp [Sys.retval, h3, h2, h]
 
 /-- the shutdown schedule does end `Run`: from any cancelled, uncrashed state, once every loop
-    and the pipeline have observed the cancellation, `Run` has returned -/
+    and the pipeline have observed the cancellation, `Run` has returned — the pipeline CAN observe
+    it as long as its intake goroutine is not blocked in the report of a failed watch (`hk`; that
+    this never happens with the channel of the source tree is `failing_watch_report_never_blocks`,
+    and `cancellation_run_returns` puts the two together for every schedule) -/
 theorem shutdown_returns (f : Nat → Nat → Nat) (s : Sys) (r : Option Nat) (hs : s.status = .cancelled r)
-    (hc : s.crashed = false) (hall : ∀ i, i < s.n → (s.ctl i).loop.phase = .stopped) :
+    (hc : s.crashed = false) (hk : s.stuck = false) (hall : ∀ i, i < s.n → (s.ctl i).loop.phase = .stopped) :
     (step f s .pipeObserve).returned = true ∧ (step f s .pipeObserve).retval = some r := by
   by_cases hen : Ev.pipeObserve.enabled s = true
   · rw [step_enabled f s _ hen]
+    have hp := pipeStop_frame genCfg s
+    have hst : (stepOn f s .pipeObserve).status = .cancelled r := by
+      show (pipeStop genCfg s).status = _; rw [hp.2.2.2.2.2.2.1]; exact hs
     have : (stepOn f s .pipeObserve).returned = true :=
-      (returned_iff _).2 ⟨by simp [stepOn, hs, Status.isCancelled], rfl, rfl, hc, hall⟩
+      (returned_iff _).2 ⟨by rw [hst]; rfl,
+        by show (pipeStop genCfg s).intake = false; rw [hp.2.2.2.2.2.2.2.2.1, hk]; simp,
+        rfl, hc, hall⟩
     refine ⟨this, ?_⟩
-    have hst : (stepOn f s .pipeObserve).status = .cancelled r := by simp [stepOn, hs]
     simp [Sys.retval, this, hst]
   · have hf : Ev.pipeObserve.enabled s = false := by simpa using hen
     rw [step_disabled f s _ hf]
@@ -1026,6 +1060,366 @@ theorem shutdown_returns (f : Nat → Nat → Nat) (s : Sys) (r : Option Nat) (h
       simpa [Ev.enabled, hc, hs, Status.isCancelled] using hf
     have : s.returned = true := (returned_iff _).2 ⟨by simp [hs, Status.isCancelled], hid.1, hid.2, hc, hall⟩
     exact ⟨this, by simp [Sys.retval, this, hs]⟩
+
+/-! ### the report of a failed watch never blocks, so cancellation always ends `Run`
+
+  `shutdown_returns` needs `s.stuck = false`: the goroutine that reads the watch notifications must
+  not sit in `runtime.watchErrors <- e.Error` (runtime.go:323), a send that does not watch the
+  context and that `Run` — the only receiver — no longer serves once it has left its select for
+  `runCtxCancel(); group.Wait()`. Whether that can happen is decided by two regenerated facts: the
+  capacity of the channel (`make(chan error, 1)`, NewRuntime) and the shape of the send. -/
+
+/-- the regenerated facts about `watchErrors`: a bare send, into a channel with at least one
+    buffer slot, which nothing else in the package touches -/
+theorem facts_watch_channel :
+    Gen.Restart.watchErrSend = .plain ∧ 1 ≤ Gen.Restart.watchErrCap ∧
+    Gen.Restart.watchErrChanPrivate = true ∧ genCfg.send = .plain ∧ 1 ≤ genCfg.cap := by decide
+
+/-- the machine over the channel of the source tree IS the machine of all the theorems above -/
+theorem stepC_gen (f : Nat → Nat → Nat) (s : Sys) (e : Ev) : stepC genCfg f s e = step f s e := by
+  unfold stepC step
+  split
+  · cases e <;> rfl
+  · rfl
+
+theorem runC_gen (f : Nat → Nat → Nat) (evs : List Ev) (s : Sys) : runC genCfg f s evs = run f s evs := by
+  induction evs generalizing s with
+  | nil => rfl
+  | cons e rest ih => show runC genCfg f (stepC genCfg f s e) rest = run f (step f s e) rest; rw [stepC_gen, ih]
+
+theorem stepC_disabled (c : ChanCfg) (f : Nat → Nat → Nat) (s : Sys) (e : Ev) (h : e.enabled s = false) :
+    stepC c f s e = s := by
+  simp [stepC, h]
+
+/-- every event but the report of a failed watch and the pipeline's shutdown leaves the channel
+    and the intake goroutine alone -/
+theorem stepOn_chan (f : Nat → Nat → Nat) (s : Sys) (e : Ev)
+    (h1 : ∀ x, e ≠ .watchErr x) (h2 : e ≠ .pipeObserve) :
+    (stepOn f s e).stuck = s.stuck ∧ (stepOn f s e).intake = s.intake ∧ (stepOn f s e).errq = s.errq ∧
+    ((stepOn f s e).status.isCancelled = true ∨ (stepOn f s e).status = s.status) := by
+  cases e with
+  | watchErr x => exact absurd rfl (h1 x)
+  | pipeObserve => exact absurd rfl h2
+  | observe i => simp only [stepOn]; split <;> exact ⟨rfl, rfl, rfl, Or.inr rfl⟩
+  | cancel => exact ⟨rfl, rfl, rfl, Or.inl rfl⟩
+  | _ => exact ⟨rfl, rfl, rfl, Or.inr rfl⟩
+
+/-- the channel invariant: nobody sits in the send, and while the goroutine that could send is
+    alive the buffer is empty (it sends at most once: `return false` follows the send) -/
+structure ChanOk (s : Sys) : Prop where
+  notStuck : s.stuck = false
+  empty : s.intake = true → s.errq = 0
+
+theorem chanOk_init (n v : Nat) : ChanOk (init n v) := ⟨rfl, fun _ => rfl⟩
+
+/-- with at least one buffer slot and a recognised send, the invariant survives every step -/
+theorem chanOk_stepC (c : ChanCfg) (hcap : 1 ≤ c.cap) (hsend : c.send ≠ .unknown)
+    (f : Nat → Nat → Nat) (s : Sys) (e : Ev) (h : ChanOk s) : ChanOk (stepC c f s e) := by
+  by_cases hen : e.enabled s = true
+  · cases e with
+    | watchErr x =>
+      have hi : s.intake = true := by
+        have := hen; simp [Ev.enabled] at this; exact this.2
+      have hq : s.errq < c.cap := by rw [h.empty hi]; exact hcap
+      have hcomp : c.completes s = true := by
+        unfold ChanCfg.completes
+        cases hk : c.send with
+        | plain => simp [hq]
+        | ctxAware => simp [hq]
+        | nonBlocking => rfl
+        | unknown => exact absurd hk hsend
+      simp only [stepC, hen, if_true]
+      unfold reportStep
+      split
+      · exact h
+      · split
+        · exact ⟨h.notStuck, fun hh => by cases hh⟩
+        · exact ⟨h.notStuck, fun hh => by cases hh⟩
+    | pipeObserve =>
+      simp only [stepC, hen, if_true]
+      have hp := pipeStop_frame c s
+      refine ⟨by rw [hp.2.2.2.2.2.2.2.2.2, h.notStuck]; simp, fun hh => ?_⟩
+      rw [hp.2.2.2.2.2.2.2.2.1, h.notStuck] at hh; simp at hh
+    | write v =>
+      simp only [stepC, hen, if_true]
+      obtain ⟨a, b, d, _⟩ := stepOn_chan f s (.write v) (fun _ hh => by cases hh) (fun hh => by cases hh)
+      exact ⟨by rw [a]; exact h.notStuck, fun hh => by rw [d]; exact h.empty (by rw [← b]; exact hh)⟩
+    | deliver =>
+      simp only [stepC, hen, if_true]
+      obtain ⟨a, b, d, _⟩ := stepOn_chan f s .deliver (fun _ hh => by cases hh) (fun hh => by cases hh)
+      exact ⟨by rw [a]; exact h.notStuck, fun hh => by rw [d]; exact h.empty (by rw [← b]; exact hh)⟩
+    | reconcile i r =>
+      simp only [stepC, hen, if_true]
+      obtain ⟨a, b, d, _⟩ := stepOn_chan f s (.reconcile i r) (fun _ hh => by cases hh) (fun hh => by cases hh)
+      exact ⟨by rw [a]; exact h.notStuck, fun hh => by rw [d]; exact h.empty (by rw [← b]; exact hh)⟩
+    | restart i =>
+      simp only [stepC, hen, if_true]
+      obtain ⟨a, b, d, _⟩ := stepOn_chan f s (.restart i) (fun _ hh => by cases hh) (fun hh => by cases hh)
+      exact ⟨by rw [a]; exact h.notStuck, fun hh => by rw [d]; exact h.empty (by rw [← b]; exact hh)⟩
+    | cancel =>
+      simp only [stepC, hen, if_true]
+      obtain ⟨a, b, d, _⟩ := stepOn_chan f s .cancel (fun _ hh => by cases hh) (fun hh => by cases hh)
+      exact ⟨by rw [a]; exact h.notStuck, fun hh => by rw [d]; exact h.empty (by rw [← b]; exact hh)⟩
+    | observe i =>
+      simp only [stepC, hen, if_true]
+      obtain ⟨a, b, d, _⟩ := stepOn_chan f s (.observe i) (fun _ hh => by cases hh) (fun hh => by cases hh)
+      exact ⟨by rw [a]; exact h.notStuck, fun hh => by rw [d]; exact h.empty (by rw [← b]; exact hh)⟩
+  · have hf : e.enabled s = false := by simpa using hen
+    rw [stepC_disabled c f s e hf]; exact h
+
+theorem chanOk_runC (c : ChanCfg) (hcap : 1 ≤ c.cap) (hsend : c.send ≠ .unknown)
+    (f : Nat → Nat → Nat) (evs : List Ev) (s : Sys) (h : ChanOk s) : ChanOk (runC c f s evs) := by
+  induction evs generalizing s with
+  | nil => exact h
+  | cons e rest ih => exact ih _ (chanOk_stepC c hcap hsend f s e h)
+
+/-- **C16, the failing-watch report never blocks.** Whatever the capacity (≥ 1) and whichever of
+    the recognised send shapes: through EVERY schedule from the start — any interleaving of
+    faults, watch failures (before, at, or after the cancellation) and cancellation — no goroutine
+    is ever left sitting in the report of a failed watch, and the buffer holds at most the one
+    error the (single, then finished) sender put there. -/
+theorem failing_watch_report_never_blocks_cfg (c : ChanCfg) (hcap : 1 ≤ c.cap) (hsend : c.send ≠ .unknown)
+    (f : Nat → Nat → Nat) (n v : Nat) (evs : List Ev) :
+    (runC c f (init n v) evs).stuck = false ∧
+    ((runC c f (init n v) evs).intake = true → (runC c f (init n v) evs).errq = 0) :=
+  let h := chanOk_runC c hcap hsend f evs (init n v) (chanOk_init n v)
+  ⟨h.notStuck, h.empty⟩
+
+/-- … in particular for the channel of the source tree (`make(chan error, 1)`, bare send): this
+    is the theorem that stops checking when the buffer is removed -/
+theorem failing_watch_report_never_blocks (f : Nat → Nat → Nat) (n v : Nat) (evs : List Ev) :
+    (run f (init n v) evs).stuck = false := by
+  have h := failing_watch_report_never_blocks_cfg genCfg (by decide) (by decide) f n v evs
+  rw [runC_gen] at h; exact h.1
+
+/-! #### every loop reaches its stopped state -/
+
+/-- no panic ever escapes a loop -/
+structure NoCrash (s : Sys) : Prop where
+  proc : s.crashed = false
+  loops : ∀ i, (s.ctl i).loop.phase ≠ .crashed
+
+theorem noCrash_init (n v : Nat) : NoCrash (init n v) := ⟨rfl, fun _ => by simp [init]⟩
+
+theorem reconcile_not_crashed (f : Nat → Nat → Nat) (i v : Nat) (c : Ctl) (r : Rec)
+    (h : c.loop.phase ≠ .crashed) : (Ctl.reconcile f i v c r).loop.phase ≠ .crashed := by
+  have ht : (rstep c.loop .takeEvent).phase ≠ .crashed := rstep_not_crashed _ _ h
+  cases r with
+  | ok reset =>
+    cases reset
+    · simpa [Ctl.reconcile] using ht
+    · simpa [Ctl.reconcile] using rstep_not_crashed _ .reset ht
+  | fail p => simpa [Ctl.reconcile] using rstep_not_crashed _ (.runEnds .failed) ht
+  | panic p => simpa [Ctl.reconcile] using rstep_not_crashed _ (.runEnds .panicked) ht
+
+theorem noCrash_step (f : Nat → Nat → Nat) (s : Sys) (e : Ev) (h : NoCrash s) : NoCrash (step f s e) := by
+  by_cases hen : e.enabled s = true
+  · cases e with
+    | write v => rw [step_write]; exact ⟨h.proc, h.loops⟩
+    | deliver =>
+      rw [step_enabled f s _ hen]
+      exact ⟨h.proc, fun i => rstep_not_crashed _ .trigger (h.loops i)⟩
+    | reconcile i r =>
+      rw [step_reconcile f s i r hen]
+      refine ⟨h.proc, fun j => ?_⟩
+      by_cases hji : j = i
+      · subst hji; rw [setCtl_self]; exact reconcile_not_crashed f j s.input _ r (h.loops j)
+      · rw [setCtl_ne _ _ _ _ hji]; exact h.loops j
+    | restart i =>
+      rw [step_restart f s i hen]
+      refine ⟨h.proc, fun j => ?_⟩
+      by_cases hji : j = i
+      · subst hji; rw [setCtl_self]; simp
+      · rw [setCtl_ne _ _ _ _ hji]; exact h.loops j
+    | watchErr x =>
+      rw [step_enabled f s _ hen]
+      have hf := reportStep_frame genCfg s x
+      exact ⟨by show (reportStep genCfg s x).crashed = false; rw [hf.2.2.2.2.2]; exact h.proc,
+        fun i => by show ((reportStep genCfg s x).ctl i).loop.phase ≠ _; rw [hf.2.1]; exact h.loops i⟩
+    | cancel => rw [step_enabled f s _ hen]; exact ⟨h.proc, h.loops⟩
+    | observe i =>
+      rw [step_enabled f s _ hen]
+      simp only [stepOn]
+      split
+      · refine ⟨h.proc, fun j => ?_⟩
+        by_cases hji : j = i
+        · subst hji; rw [setCtl_self]; simp
+        · rw [setCtl_ne _ _ _ _ hji]; exact h.loops j
+      · exact h
+    | pipeObserve => rw [step_enabled f s _ hen]; exact ⟨h.proc, h.loops⟩
+  · have hf : e.enabled s = false := by simpa using hen
+    rw [step_disabled f s e hf]; exact h
+
+theorem noCrash_run (f : Nat → Nat → Nat) (evs : List Ev) (s : Sys) (h : NoCrash s) : NoCrash (run f s evs) := by
+  induction evs generalizing s with
+  | nil => exact h
+  | cons e rest ih => exact ih _ (noCrash_step f s e h)
+
+/-- what the shutdown needs of a state: cancelled, nothing crashed, nobody stuck in the report -/
+structure Stopping (r : Option Nat) (s : Sys) : Prop where
+  status : s.status = .cancelled r
+  noCrash : NoCrash s
+  notStuck : s.stuck = false
+
+/-- loop `i` notices the cancellation: it is stopped afterwards, every loop that was stopped
+    still is, nothing else changes -/
+theorem observe_stops (f : Nat → Nat → Nat) (s : Sys) (r : Option Nat) (i : Nat) (h : Stopping r s) :
+    Stopping r (step f s (.observe i)) ∧ (step f s (.observe i)).n = s.n ∧
+    (i < s.n → ((step f s (.observe i)).ctl i).loop.phase = .stopped) ∧
+    (∀ j, (s.ctl j).loop.phase = .stopped → ((step f s (.observe i)).ctl j).loop.phase = .stopped) := by
+  have hg : Gen.Restart.adaptersInGroup = true := facts.2.2.2.2.2.2.2.2.2.2.2.2.2.2.2.2.2
+  by_cases hen : (Ev.observe i).enabled s = true
+  · rw [step_enabled f s _ hen]
+    simp only [stepOn, hg, if_true]
+    refine ⟨⟨h.status, ⟨h.noCrash.proc, fun j => ?_⟩, h.notStuck⟩, rfl, fun _ => by rw [setCtl_self], fun j hj => ?_⟩
+    · by_cases hji : j = i
+      · subst hji; rw [setCtl_self]; simp
+      · rw [setCtl_ne _ _ _ _ hji]; exact h.noCrash.loops j
+    · by_cases hji : j = i
+      · subst hji; rw [setCtl_self]
+      · rw [setCtl_ne _ _ _ _ hji]; exact hj
+  · have hf : (Ev.observe i).enabled s = false := by simpa using hen
+    rw [step_disabled f s _ hf]
+    refine ⟨h, rfl, fun hi => ?_, fun _ hj => hj⟩
+    have hl : (s.ctl i).loop.phase.live = false := by
+      simpa [Ev.enabled, h.noCrash.proc, hi, h.status, Status.isCancelled] using hf
+    have hnc := h.noCrash.loops i
+    cases hp : (s.ctl i).loop.phase with
+    | running => rw [hp] at hl; cases hl
+    | backingOff lo hi => rw [hp] at hl; cases hl
+    | stopped => rfl
+    | crashed => exact absurd hp hnc
+
+theorem observe_all_stops (f : Nat → Nat → Nat) (r : Option Nat) (l : List Nat) (s : Sys) (h : Stopping r s) :
+    Stopping r (run f s (l.map Ev.observe)) ∧ (run f s (l.map Ev.observe)).n = s.n ∧
+    (∀ i ∈ l, i < s.n → ((run f s (l.map Ev.observe)).ctl i).loop.phase = .stopped) ∧
+    (∀ j, (s.ctl j).loop.phase = .stopped → ((run f s (l.map Ev.observe)).ctl j).loop.phase = .stopped) := by
+  induction l generalizing s with
+  | nil => exact ⟨h, rfl, fun _ hi => (by cases hi), fun _ hj => hj⟩
+  | cons a rest ih =>
+    obtain ⟨h1, hn1, ha, hkeep⟩ := observe_stops f s r a h
+    obtain ⟨h2, hn2, hrest, hkeep2⟩ := ih (step f s (.observe a)) h1
+    refine ⟨h2, by rw [← hn1]; exact hn2, fun i hi hlt => ?_, fun j hj => hkeep2 j (hkeep j hj)⟩
+    cases hi with
+    | head => exact hkeep2 _ (ha hlt)
+    | tail _ hmem => exact hrest i hmem (by rw [hn1]; exact hlt)
+
+/-- **C16, clean shutdown, liveness half.** From ANY cancelled state in which no panic has escaped
+    and nobody is stuck in the report of a failed watch, the shutdown schedule — every loop and
+    the pipeline notice the cancellation — ends in `Run` having returned the value the
+    cancellation fixed: every goroutine of the machine has reached its stopped state. -/
+theorem shutdown_stops_every_goroutine (f : Nat → Nat → Nat) (s : Sys) (r : Option Nat) (h : Stopping r s) :
+    (run f s (shutdownEvs s.n)).returned = true ∧ (run f s (shutdownEvs s.n)).retval = some r := by
+  obtain ⟨h1, hn, hall, _⟩ := observe_all_stops f r (List.range s.n) s h
+  unfold shutdownEvs
+  rw [run_append]
+  show (step f (run f s ((List.range s.n).map Ev.observe)) .pipeObserve).returned = true ∧ _
+  exact shutdown_returns f _ r h1.status h1.noCrash.proc h1.notStuck
+    (fun i hi => hall i (List.mem_range.2 (by rw [← hn]; exact hi)) (by rw [← hn]; exact hi))
+
+/-- **C16, on cancellation `Run` returns — for every schedule.** Take any history whatsoever of
+    the runtime (faults, restarts, input changes, watch failures before or after the
+    cancellation, …): if by its end the runtime context is cancelled — by the caller or by a failed
+    watch — then letting every loop and the pipeline notice it ends `Run`, which returns what the
+    cancellation fixed (nil, or the watch error). No goroutine can be left behind: none crashes
+    (recover), none blocks in the report of a failed watch (buffered channel). -/
+theorem cancellation_run_returns (f : Nat → Nat → Nat) (n v : Nat) (evs : List Ev) (r : Option Nat)
+    (hs : (run f (init n v) evs).status = .cancelled r) :
+    (run f (init n v) (evs ++ shutdownEvs n)).returned = true ∧
+    (run f (init n v) (evs ++ shutdownEvs n)).retval = some r := by
+  have hst : Stopping r (run f (init n v) evs) :=
+    ⟨hs, noCrash_run f evs _ (noCrash_init n v), failing_watch_report_never_blocks f n v evs⟩
+  have := shutdown_stops_every_goroutine f _ r hst
+  rw [run_n] at this
+  rw [run_append]; exact this
+
+/-! #### … and what the buffer is for: a report that blocks is never released -/
+
+/-- a goroutine sitting in a bare send on a full (or unbuffered) channel after `Run` has left its
+    select -/
+structure Blocked (c : ChanCfg) (s : Sys) : Prop where
+  stuck : s.stuck = true
+  intake : s.intake = true
+  cancelled : s.status.isCancelled = true
+  full : ¬ s.errq < c.cap
+
+theorem blocked_stepC (c : ChanCfg) (hsend : c.send = .plain) (f : Nat → Nat → Nat) (s : Sys) (e : Ev)
+    (h : Blocked c s) : Blocked c (stepC c f s e) := by
+  by_cases hen : e.enabled s = true
+  · have hcanc : ∀ s' : Sys, (s'.status.isCancelled = true ∨ s'.status = s.status) → s'.status.isCancelled = true :=
+      fun s' hh => hh.elim id (fun h2 => by rw [h2]; exact h.cancelled)
+    cases e with
+    | watchErr x =>
+      have hnr : (s.status == Status.running) = false := by
+        cases hs : s.status with
+        | running => have := h.cancelled; rw [hs] at this; cases this
+        | cancelled r => rfl
+      have hcomp : c.completes s = false := by
+        unfold ChanCfg.completes; rw [hsend]; simpa using h.full
+      simp only [stepC, hen, if_true]
+      unfold reportStep
+      split
+      · exact h
+      · simp only [hnr, Bool.false_and]
+        rw [if_neg (by simp), if_neg (by simp [hcomp])]
+        exact ⟨rfl, h.intake, h.cancelled, h.full⟩
+    | pipeObserve =>
+      simp only [stepC, hen, if_true]
+      have hp := pipeStop_frame c s
+      have hv : (s.intake && s.stuck && c.send != Gen.SendKind.ctxAware) = true := by
+        rw [h.intake, h.stuck, hsend]; decide
+      exact ⟨by rw [hp.2.2.2.2.2.2.2.2.2, hv], by rw [hp.2.2.2.2.2.2.2.2.1, hv],
+        by rw [hp.2.2.2.2.2.2.1]; exact h.cancelled, by rw [hp.2.2.2.2.2.2.2.1]; exact h.full⟩
+    | write v =>
+      simp only [stepC, hen, if_true]
+      obtain ⟨a, b, d, g⟩ := stepOn_chan f s (.write v) (fun _ hh => by cases hh) (fun hh => by cases hh)
+      exact ⟨by rw [a]; exact h.stuck, by rw [b]; exact h.intake, hcanc _ g, by rw [d]; exact h.full⟩
+    | deliver =>
+      simp only [stepC, hen, if_true]
+      obtain ⟨a, b, d, g⟩ := stepOn_chan f s .deliver (fun _ hh => by cases hh) (fun hh => by cases hh)
+      exact ⟨by rw [a]; exact h.stuck, by rw [b]; exact h.intake, hcanc _ g, by rw [d]; exact h.full⟩
+    | reconcile i r =>
+      simp only [stepC, hen, if_true]
+      obtain ⟨a, b, d, g⟩ := stepOn_chan f s (.reconcile i r) (fun _ hh => by cases hh) (fun hh => by cases hh)
+      exact ⟨by rw [a]; exact h.stuck, by rw [b]; exact h.intake, hcanc _ g, by rw [d]; exact h.full⟩
+    | restart i =>
+      simp only [stepC, hen, if_true]
+      obtain ⟨a, b, d, g⟩ := stepOn_chan f s (.restart i) (fun _ hh => by cases hh) (fun hh => by cases hh)
+      exact ⟨by rw [a]; exact h.stuck, by rw [b]; exact h.intake, hcanc _ g, by rw [d]; exact h.full⟩
+    | cancel =>
+      simp only [stepC, hen, if_true]
+      obtain ⟨a, b, d, g⟩ := stepOn_chan f s .cancel (fun _ hh => by cases hh) (fun hh => by cases hh)
+      exact ⟨by rw [a]; exact h.stuck, by rw [b]; exact h.intake, hcanc _ g, by rw [d]; exact h.full⟩
+    | observe i =>
+      simp only [stepC, hen, if_true]
+      obtain ⟨a, b, d, g⟩ := stepOn_chan f s (.observe i) (fun _ hh => by cases hh) (fun hh => by cases hh)
+      exact ⟨by rw [a]; exact h.stuck, by rw [b]; exact h.intake, hcanc _ g, by rw [d]; exact h.full⟩
+  · have hf : e.enabled s = false := by simpa using hen
+    rw [stepC_disabled c f s e hf]; exact h
+
+/-- a blocked report stays blocked through every schedule, and `Run` — which waits for that
+    goroutine — never returns -/
+theorem blocked_report_is_forever (c : ChanCfg) (hsend : c.send = .plain) (f : Nat → Nat → Nat)
+    (evs : List Ev) (s : Sys) (h : Blocked c s) :
+    Blocked c (runC c f s evs) ∧ (runC c f s evs).returned = false := by
+  induction evs generalizing s with
+  | nil => exact ⟨h, by simp [runC, Sys.returned, h.intake]⟩
+  | cons e rest ih => exact ih _ (blocked_stepC c hsend f s e h)
+
+/-- **what the regenerated capacity protects against.** Had `watchErrors` no buffer
+    (`make(chan error)`), then for every number of controllers, every input and every schedule that
+    follows: a watch failure that `processEvents` meets after `Run` has observed the cancellation
+    leaves `Run` waiting for ever — "on cancellation Run returns" would be false. -/
+theorem unbuffered_report_hangs_run (f : Nat → Nat → Nat) (n v e : Nat) (evs : List Ev) :
+    (runC ⟨0, .plain⟩ f (init n v) ([.cancel, .watchErr e] ++ evs)).returned = false := by
+  have hr : reportEndsIntake = true := reportEndsIntake_true
+  have hb : Blocked ⟨0, .plain⟩ (runC ⟨0, .plain⟩ f (init n v) [.cancel, .watchErr e]) := by
+    refine ⟨?_, ?_, ?_, ?_⟩ <;>
+      simp [runC, stepC, Ev.enabled, init, stepOn, reportStep, hr, ChanCfg.completes, Status.isCancelled]
+  have hsplit : runC ⟨0, .plain⟩ f (init n v) ([.cancel, .watchErr e] ++ evs) =
+      runC ⟨0, .plain⟩ f (runC ⟨0, .plain⟩ f (init n v) [.cancel, .watchErr e]) evs := rfl
+  rw [hsplit]
+  exact (blocked_report_is_forever ⟨0, .plain⟩ rfl f evs _ hb).2
 
 /-- (marker) errors reported below this line are in the non-vacuity examples -/
 theorem examples_follow : True := trivial
@@ -1132,5 +1526,46 @@ example :
 /-- a watch error that arrives after the cancellation does not change the return value -/
 example :
     (run fEx (init 1 0) ([.cancel, .watchErr 4] ++ shutdownEvs 1)).retval = some none := by decide
+
+/-- the channel of the source tree: one slot, bare send -/
+example : genCfg = ⟨1, .plain⟩ := by decide
+
+/-- cancellation first, then the watch fails (the batch carrying `Errored` is processed after `Run`
+    has left its select): the report goes into the buffer, the intake goroutine ends, the shutdown
+    schedule ends `Run`, which returns nil; the hypotheses of `cancellation_run_returns` are met by
+    this history, and controller 0 was backing off when it was cancelled -/
+example :
+    (run fEx (init 2 5) [.reconcile 0 (.fail none), .cancel, .watchErr 4]).stuck = false ∧
+    (run fEx (init 2 5) [.reconcile 0 (.fail none), .cancel, .watchErr 4]).errq = 1 ∧
+    (run fEx (init 2 5) [.reconcile 0 (.fail none), .cancel, .watchErr 4]).intake = false ∧
+    (run fEx (init 2 5) [.reconcile 0 (.fail none), .cancel, .watchErr 4]).status = .cancelled none ∧
+    ((run fEx (init 2 5) [.reconcile 0 (.fail none), .cancel, .watchErr 4]).ctl 0).loop.phase.isBackingOff = true ∧
+    (run fEx (init 2 5) ([.reconcile 0 (.fail none), .cancel, .watchErr 4] ++ shutdownEvs 2)).returned = true ∧
+    (run fEx (init 2 5) ([.reconcile 0 (.fail none), .cancel, .watchErr 4] ++ shutdownEvs 2)).retval = some none := by
+  decide
+
+/-- NEGATIVE WITNESS, capacity 0 (kernel-checked): the very same history over an unbuffered
+    `watchErrors` leaves the intake goroutine in the send; the shutdown schedule stops both
+    controllers and the deliverer but `Run` has NOT returned, and no further event helps — while
+    a watch failure BEFORE the cancellation is fine without a buffer (Run receives it directly) -/
+example :
+    (runC ⟨0, .plain⟩ fEx (init 2 5) [.reconcile 0 (.fail none), .cancel, .watchErr 4]).stuck = true ∧
+    (runC ⟨0, .plain⟩ fEx (init 2 5) ([.reconcile 0 (.fail none), .cancel, .watchErr 4] ++ shutdownEvs 2)).returned = false ∧
+    (runC ⟨0, .plain⟩ fEx (init 2 5) ([.reconcile 0 (.fail none), .cancel, .watchErr 4] ++ shutdownEvs 2)).deliverer = false ∧
+    ((runC ⟨0, .plain⟩ fEx (init 2 5) ([.reconcile 0 (.fail none), .cancel, .watchErr 4] ++ shutdownEvs 2)).ctl 0).loop.phase = .stopped ∧
+    ((runC ⟨0, .plain⟩ fEx (init 2 5) ([.reconcile 0 (.fail none), .cancel, .watchErr 4] ++ shutdownEvs 2)).ctl 1).loop.phase = .stopped ∧
+    (runC ⟨0, .plain⟩ fEx (init 2 5) ([.reconcile 0 (.fail none), .cancel, .watchErr 4] ++ shutdownEvs 2 ++
+        [.pipeObserve, .watchErr 5, .cancel, .write 1] ++ shutdownEvs 2)).returned = false ∧
+    (runC ⟨0, .plain⟩ fEx (init 2 5) ([.reconcile 0 (.fail none), .watchErr 4, .cancel] ++ shutdownEvs 2)).retval = some (some 4) := by
+  decide
+
+/-- the buffer is what matters, not its size; and a send that watches the context would do
+    without one: it is released when the pipeline observes the cancellation -/
+example :
+    (runC ⟨2, .plain⟩ fEx (init 1 0) ([.cancel, .watchErr 4] ++ shutdownEvs 1)).retval = some none ∧
+    (runC ⟨0, .ctxAware⟩ fEx (init 1 0) ([.cancel, .watchErr 4] ++ shutdownEvs 1)).retval = some none ∧
+    (runC ⟨0, .nonBlocking⟩ fEx (init 1 0) ([.cancel, .watchErr 4] ++ shutdownEvs 1)).retval = some none ∧
+    (runC ⟨1, .unknown⟩ fEx (init 1 0) ([.cancel, .watchErr 4] ++ shutdownEvs 1)).returned = false := by
+  decide
 
 end Cosi.C16
